@@ -27,8 +27,8 @@ PROP = dict(
     tags=["gq1"],
     units=[
         U("laws", ".", "^TestVerifC17_(Laws|Lever)", 3600, 120000, sq=2, sth=8),
-        U("order", "./server", "^TestVerifC17_Order$", 60, 1200, sq=5, sth=12),
-        U("cluster", "./server", "^TestVerifC17_Cluster$", 30, 600, sq=3, sth=6, timeout={"quick": 600, "thorough": 3000}),
+        U("order", "./server", "^TestVerifC17_Order$", 60, 2400, sq=5, sth=12),
+        U("cluster", "./server", "^TestVerifC17_Cluster$", 30, 1200, sq=3, sth=6, timeout={"quick": 600, "thorough": 3000}),
         U("wit", ".", "^TestVerifWitness_D17$", 0, 0, sq=1, sth=1, rapid=False),
         U("witapi", "./server", "^TestVerifWitness_DQA7$", 0, 0, sq=1, sth=1, rapid=False),
     ],
